@@ -41,6 +41,11 @@ pub fn enc_bytes(text: &str, enc: &str) -> Option<Vec<u8>> {
     encode(text, enc, EncoderTrap::Strict).ok()
 }
 
+/// the text in `enc`, characters the code page lacks left out
+pub fn enc_bytes_lossy(text: &str, enc: &str) -> Vec<u8> {
+    encode(text, enc, EncoderTrap::Ignore).unwrap_or_default()
+}
+
 pub const MARKS: &[(&str, &[u8])] = &[
     ("utf-8", b"\xef\xbb\xbf"),
     ("gb18030", b"\x84\x31\x95\x33"),
@@ -400,6 +405,71 @@ pub fn large_mixed_case(rng: &mut Rng, steps: usize) -> Vec<u8> {
 /// control characters so that the `ascii`/`utf-8` hints do not end the run early: many candidates of
 /// *different decoded lengths* get accepted one after the other, which is what makes a dependence of one
 /// candidate's verdict on an earlier candidate visible.
+/// A Latin-script text whose few bytes >= 0x80 mean the same character in many code pages (no-break space,
+/// section / copyright / degree signs, guillemets, a handful of accented letters): pages of quite different
+/// scripts then decode it to the *same* text and end up as alternatives of one match, each with the
+/// languages its own page targets.
+pub fn shared_high_bytes_case(rng: &mut Rng) -> Case {
+    let name = *rng.pick(&["english", "french", "german", "spanish", "italian", "dutch"]);
+    let base = TEXTS.iter().find(|(n, _)| *n == name).map(|x| x.1).unwrap_or(TEXTS[0].1);
+    let k = rng.range(150, 1400);
+    let text = stretch(rng, base, k);
+    let shared: &[u8] = match rng.below(3) {
+        0 => &[0xA0, 0xA7, 0xA9],
+        1 => &[0xA0, 0xA7, 0xA9, 0xAB, 0xBB, 0xB0, 0xB1, 0xB5, 0xB6, 0xB7],
+        _ => &[0xA0, 0xE9, 0xE8, 0xE0, 0xE7, 0xEA],
+    };
+    let mut b: Vec<u8> = vec![];
+    let every = rng.range(12, 90);
+    for (i, c) in text.chars().enumerate() {
+        if c.is_ascii() {
+            b.push(c as u8);
+        } else if rng.chance(1, 2) {
+            b.push(*rng.pick(shared));
+        }
+        if i % every == every - 1 {
+            b.push(*rng.pick(shared));
+        }
+    }
+    let mut sett = Sett::default();
+    if rng.chance(1, 3) {
+        sett.lthr = *rng.pick(&[0.0f32, 0.3, 0.6]);
+    }
+    Case { bytes: b, sett, tag: format!("shared-high-bytes:{}", name) }
+}
+
+/// Two self-identifications that disagree: the input starts with the mark of one encoding and declares another
+/// one (both supported, both able to read the body), so the order in which the hints are tried decides.
+pub fn conflicting_hints_case(rng: &mut Rng) -> Case {
+    let (mk_enc, mk) = *rng.pick(MARKS);
+    let declared = loop {
+        let d = *rng.pick(&["iso-8859-1", "windows-1252", "windows-1251", "koi8-r", "utf-8", "ascii", "iso-8859-15", "ibm866", "gb18030", "shift_jis", "big5", "macintosh", "iso-8859-7"]);
+        if d != mk_enc {
+            break d;
+        }
+    };
+    let kw = *rng.pick(&["charset=", "encoding=\"", "coding: "]);
+    let mut b = mk.to_vec();
+    let head = format!("<?xml version=\"1.0\" {}{}\"?>\n", kw, declared);
+    if mk_enc.starts_with("utf-16") {
+        for u in head.encode_utf16() {
+            b.extend_from_slice(&if mk_enc == "utf-16le" { u.to_le_bytes() } else { u.to_be_bytes() });
+        }
+    } else {
+        b.extend_from_slice(head.as_bytes());
+    }
+    let body_len = 80 + rng.below(600);
+    let body = stretch(rng, TEXTS[0].1, body_len);
+    if mk_enc.starts_with("utf-16") && rng.chance(1, 2) {
+        for u in body.encode_utf16() {
+            b.extend_from_slice(&if mk_enc == "utf-16le" { u.to_le_bytes() } else { u.to_be_bytes() });
+        }
+    } else {
+        b.extend_from_slice(body.as_bytes());
+    }
+    Case { bytes: b, sett: Sett::default(), tag: format!("conflicting-hints:{}+{}", mk_enc, declared) }
+}
+
 pub fn multi_candidate_case(rng: &mut Rng) -> Case {
     let base = TEXTS[0].1;
     let mut sett = Sett::default();
